@@ -295,3 +295,47 @@ def require_locals(ctx, f, names, rule=""):
     if missing:
         ctx.broken("%s: %s no longer binds the local name(s) %s that the rule refers to (renamed?) - the rule must "
                    "be re-anchored" % (rule or "anchor", f.qname, missing))
+
+
+def presence_tests(func_node, name):
+    """How a function tests whether its optional numeric value `name` is present.
+    -> list of (node, verdict): True = `name is None` / `name is not None` (0 stays a value),
+    False = truthiness (`if name`, `not name`, `bool(name)`, `name or d`, `x if name else y`): 0 / 0.0 counts as absent,
+    None = the value is tested in another way."""
+    out = []
+
+    def classify(t):
+        if isinstance(t, ast.UnaryOp) and isinstance(t.op, ast.Not):
+            return classify(t.operand)
+        if isinstance(t, ast.Name) and t.id == name:
+            return False
+        if isinstance(t, ast.Call) and isinstance(t.func, ast.Name) and t.func.id == "bool" and len(t.args) == 1 and U(t.args[0]) == name:
+            return False
+        if isinstance(t, ast.Compare) and len(t.ops) == 1:
+            l, r = t.left, t.comparators[0]
+            if isinstance(t.ops[0], (ast.Is, ast.IsNot)) and {U(l), U(r)} == {name, "None"}:
+                return True
+            if name in (U(l), U(r)):
+                return None
+        return "n/a"
+
+    for n in ast.walk(func_node):
+        tests = []
+        if isinstance(n, (ast.If, ast.IfExp, ast.While)):
+            tests = conj_parts(n.test)
+        elif isinstance(n, ast.BoolOp) and not isinstance(getattr(n, "_parent", None), (ast.If, ast.IfExp, ast.While, ast.BoolOp)):
+            tests = n.values[:-1]
+        for t in tests:
+            v = classify(t)
+            if v != "n/a":
+                out.append((n, v))
+    return out
+
+
+def conj_parts(t):
+    if isinstance(t, ast.BoolOp):
+        out = []
+        for v in t.values:
+            out.extend(conj_parts(v))
+        return out
+    return [t]
